@@ -69,7 +69,9 @@ def gen_case(rng, cid, tier, family):
     steps = rng.choice([10, 16, 24]) if tier == "quick" else rng.choice([20, 40, 80])
     if family == "tv":
         fs = [rng.choice(NORMAL_F) for _ in range(2)]
-        end = F(steps * 18 + 40, 10 ** 9)
+        # never end exactly on a tick: the destructor's flush would get a zero-length interval and write the AFTER-phase
+        # records of that last tick with the tick's own time (see the report: same-time records are ambiguous)
+        end = F(steps * 18 + 40, 10 ** 9) + F(1235, 10 ** 13)
         wait, tv = 0, 1
     else:
         fs = [rng.choice(EXOTIC_F + NORMAL_F[:2]) for _ in range(2)]
@@ -94,9 +96,9 @@ def gen_cases(tier, seed, n_tv, n_vcd, prefix="g"):
     for i, w in enumerate([63, 64, 65, 128, 129]):
         cases.append({k: str(v) for k, v in dict(id=f"{prefix}w{i}", nclk=1, f0="100000000/1", f1="100000000/1", wc=5, ws=w, wd=w,
                                                   steps=14, seed=rng.randrange(1, 10 ** 9), tv=1, allsig=0, wait=0, pows=1,
-                                                  end="1/3000000").items()})
+                                                  end="3333335/10000000000000").items()})
     cases.append({k: str(v) for k, v in dict(id=f"{prefix}k0", nclk=1, f0="100000000/1", f1="100000000/1", wc=4, ws=3, wd=6, steps=6,
-                                              seed=rng.randrange(1, 10 ** 9), tv=1, allsig=0, wait=0, pows=2, end="1/4000000").items()})
+                                              seed=rng.randrange(1, 10 ** 9), tv=1, allsig=0, wait=0, pows=2, end="2500005/10000000000000").items()})
     return cases
 
 
@@ -611,7 +613,7 @@ def main():
         replay_case = parse_case(rp["case"])
         cases = [replay_case]
     else:
-        n_tv, n_vcd = (12, 12) if tier == "quick" else (70, 70)
+        n_tv, n_vcd = (12, 12) if tier == "quick" else (220, 220)
         cases = corpus_cases() + gen_cases(tier, seed, n_tv, n_vcd)
 
     t0 = time.time()
